@@ -521,6 +521,8 @@ func runC10(c *wk.Ctx) {
 		// loading a description must return: a valid acyclic chain of objects with two defaulted references each
 		c.Begin(0, "descriptions of chains of objects with two defaulted references each")
 		c04DefaultChains(c, "C10")
+		c.Note("descriptions of chains of single-property objects")
+		c04WrapperChains(c, "C10")
 	}
 	nDesc := c.N(48, 900)
 	const chunks = 8 // the mutants of one description are spread over several cases (and so over the workers)
